@@ -123,9 +123,15 @@ def uniq(words):
 
 
 def hay_from(rng, alphabet, pats, n):
-    """haystack mixing random symbols with embedded patterns and pattern prefixes"""
+    """haystack mixing random symbols with embedded patterns and pattern prefixes; one time in
+    three it ends inside a pattern (a proper prefix of one), which is where the leftmost iterators
+    and the end-of-input handling differ"""
     out = b""
-    while len(out) < n:
+    tail = b""
+    if pats and rng.chance(1, 3):
+        p = rng.choice(pats)
+        tail = p[:rng.range(0, max(0, len(p) - 1))]
+    while len(out) + len(tail) < n:
         r = rng.below(4)
         if r == 0 and pats:
             out += rng.choice(pats)
@@ -134,7 +140,7 @@ def hay_from(rng, alphabet, pats, n):
             out += p[:rng.range(0, len(p))]
         else:
             out += bytes([rng.choice(alphabet)])
-    return out[:n]
+    return (out[:max(0, n - len(tail))] + tail)[:max(n, len(tail))]
 
 
 def pick_entry_vt(rng, npats):
@@ -261,6 +267,68 @@ def g3_blocks(rng, n, prefix="g3", nfbs=(1, 2, 3, 16, 64), scale=1):
         kind = pick_kind(rng)
         hays = [hay_from(rng, list(range(alpha_n)), pats, rng.range(10, 40)) for _ in range(4)]
         emit(pats, kind, hays, "r")
+    return cases
+
+
+# ------------------------------------------------------------------------------------------ G4
+def g4_fill(rng, n, prefix="g4"):
+    """block-filling families: a root fan-out of 250..256 consecutive bytes (so block 0 is full
+    or nearly full and later states are placed through the `base = len` fall-back or in fresh
+    blocks), plus a few second-level edges on the bytes that matter for vacant CHECK values and
+    XOR corners (0x00, 0x01, 0xFE, 0xFF, the parent's own label)"""
+    cases = []
+    k = 0
+    corner = [0, 1, 2, 254, 255]
+    while k < n:
+        fan = 250 + (k % 7)                 # 250..256
+        off = [0, 1, 2, 0, 3][(k // 7) % 5]
+        roots = [(off + i) % 256 for i in range(fan)]
+        pats = [bytes([a]) for a in roots]
+        nsec = 1 + (k // 35) % 4
+        for j in range(nsec):
+            a = roots[(5 + 7 * j + k) % len(roots)] if (k + j) % 3 else rng.choice(roots)
+            b = corner[(k + j) % len(corner)] if (k // 3 + j) % 2 == 0 else rng.choice(roots)
+            pats.append(bytes([a, b]))
+            if rng.chance(1, 3):
+                pats.append(bytes([a, b, rng.choice(corner)]))
+        pats = uniq(pats)
+        kind = pick_kind(rng)
+        nfb = [16, 1, 2, 16, 3][k % 5]
+        hays = []
+        for p in pats[fan:fan + 6]:
+            hays.append(p + bytes([0, 1, 255]) + p)
+        hays.append(bytes([roots[0], 0, roots[-1], 255, 1, 0]))
+        hays.append(hay_from(rng, roots[:8] + corner, pats[fan:], 24))
+        cases.append(Case(f"{prefix}_{k}", "bw", kind, nfb, "u32", "build", "ST",
+                          [(p, j) for j, p in enumerate(pats)], hays, b"", suite="fill"))
+        k += 1
+    return cases
+
+
+def g3_sparse(rng, n, prefix="g3s", nfbs=(1, 2, 3, 16, 64)):
+    """sparse high fan-out tries: about half of all 2-symbol strings over an alphabet of 40..95
+    symbols, plus records that start with a 0x00 separator; such sets cannot be packed densely,
+    so evicted blocks still have vacant slots (the case the CHECK sanitising exists for)"""
+    cases = []
+    for g in range(n):
+        size = [64, 95, 40, 80][g % 4]
+        alpha = list(range(0x20, 0x20 + size))
+        pats = [bytes([a, b]) for a in alpha for b in alpha if rng.chance(1, 2)]
+        pats += [bytes([0, a]) for a in alpha if rng.chance(1, 2)]
+        if g % 2:
+            pats += [bytes([a, 0]) for a in alpha if rng.chance(1, 4)]
+        pats = rng.shuffle(uniq(pats))
+        kind = pick_kind(rng)
+        hays = []
+        for _ in range(3):
+            h = b""
+            while len(h) < 48:
+                r = rng.below(5)
+                h += rng.choice(pats) if r < 2 else bytes([0]) if r == 2 else bytes([rng.choice(alpha)])
+            hays.append(h)
+        for nfb in nfbs:
+            cases.append(Case(f"{prefix}{g}n{nfb}", "bw", kind, nfb, "u32", "build", "ST",
+                              [(p, j) for j, p in enumerate(pats)], hays, b"", group=f"{prefix}{g}", suite="sparse"))
     return cases
 
 
@@ -450,21 +518,21 @@ def g8_perm(rng, n, prefix="g8"):
 # (generator, quick count, thorough count, kwargs); counts are the generator's own unit
 PLAN = {
     # property: (kinds, [(gen, quick_n, thorough_n)], forced ops or None)
-    "C01": ((0,), [("g1", 220, 3000), ("g2", 40, 800), ("g3", 4, 24), ("g5", 30, 600)]),
+    "C01": ((0,), [("g1", 220, 3000), ("g2", 40, 800), ("g3", 4, 24), ("g5", 30, 600), ("g4", 40, 350), ("g3s", 1, 8)]),
     "C02": ((0,), [("g1", 220, 3000), ("g2", 40, 800), ("g3", 4, 24), ("g5", 30, 600)]),
     "C03": ((1,), [("g1", 220, 3000), ("g2", 40, 800), ("g3", 4, 24), ("g5", 30, 600)]),
     "C04": ((2,), [("g1", 220, 3000), ("g2", 40, 800), ("g3", 4, 24), ("g5", 30, 600), ("g9", 40, 400)]),
     "C05": ((0,), [("g1", 220, 3000), ("g2", 40, 800), ("g3", 4, 24), ("g5", 30, 600)]),
     "C06": ((0, 1, 2), [("g7", 160, 2500), ("g1", 120, 1500), ("g5", 20, 300)]),
-    "C07": ((0, 1, 2), [("g1", 150, 2000), ("g2", 40, 800), ("g3", 5, 30), ("g5", 40, 800), ("g7", 60, 400)]),
+    "C07": ((0, 1, 2), [("g1", 150, 2000), ("g2", 40, 800), ("g3", 5, 30), ("g5", 40, 800), ("g7", 60, 400), ("g4", 70, 700), ("g3s", 1, 8)]),
     "C08": ((0, 1, 2), [("g5", 90, 2500)]),
     "C09": ((0, 1, 2), [("g7", 200, 3000), ("g1", 100, 1500), ("g5", 30, 400)]),
     "C10": ((0, 1, 2), [("g6", 620, 4000)]),
-    "C11": ((0, 1, 2), [("g3", 7, 40)]),
+    "C11": ((0, 1, 2), [("g3", 7, 40), ("g3s", 3, 16), ("g4", 35, 350)]),
     "C12": ((0,), [("g1", 200, 3000), ("g2", 40, 800), ("g5", 40, 800)]),
     "C13": ((0, 1, 2), [("g1", 200, 3000), ("g2", 40, 800), ("g3", 4, 24), ("g5", 30, 600), ("g10", 12, 60)]),
     "C14": ((0, 1, 2), [("g8", 12, 150), ("g1", 60, 600)]),
-    "C15": ((0, 1, 2), [("g1", 200, 3000), ("g2", 40, 800), ("g3", 5, 30), ("g5", 30, 600)]),
+    "C15": ((0, 1, 2), [("g1", 200, 3000), ("g2", 40, 800), ("g3", 5, 30), ("g5", 30, 600), ("g4", 35, 350)]),
 }
 
 
@@ -511,7 +579,7 @@ def g10_failchains(rng, n, prefix="g10"):
     return cases
 
 
-GENS = {"g1": g1_small, "g2": g2_bytes, "g3": g3_blocks, "g5": g5_utf8, "g6": g6_invalid,
+GENS = {"g4": g4_fill, "g3s": g3_sparse, "g1": g1_small, "g2": g2_bytes, "g3": g3_blocks, "g5": g5_utf8, "g6": g6_invalid,
         "g7": g7_values, "g8": g8_perm, "g9": g9_orders, "g10": g10_failchains}
 
 
@@ -526,6 +594,8 @@ def suites_for(prop, seed, tier):
         sub = Rng(rng.next())
         if name == "g3":
             got = g3_blocks(sub, n, nfbs=(1, 2, 3, 16, 64) if tier == "quick" else (1, 2, 3, 4, 5, 7, 8, 16, 33, 64))
+        elif name == "g3s":
+            got = g3_sparse(sub, n, nfbs=(1, 2, 3, 16, 64) if tier == "quick" else (1, 2, 3, 4, 5, 8, 16, 64))
         elif name == "g5":
             got = g5_utf8(sub, n, big=(tier != "quick"))
         else:
